@@ -1,0 +1,31 @@
+//go:build verif
+
+package rest
+
+// Contracts for property C11 (writes are all-or-nothing; success is only reported when durable), rest package:
+// the handlers that call Authenticator.Save / RegisterNewUser directly. Path contracts (see /repo/auth/zz_verif_c11.go).
+// Comment-only; read by /verif/engine.
+
+//@ props C11
+
+// DELETE /db/_user/{name}/_session (all sessions): the save of the user with its new session uuid surfaces; the audit
+// event is raised only after the save succeeded.
+//@ func handler.deleteUserSessions
+//@   modifies *
+//@   only-contracts none
+//@   propagates GetUser#1 Save#1
+//@   before[audit-after-save] call Audit#1 called(Save, 1) && isNilErr(callres(Save, 1, 0))
+
+// POST _user/{name}/_compact_channel_history (admin): the save of the compacted user surfaces; the response is written only after it.
+//@ func handler.compactUserChannelHistory
+//@   modifies *
+//@   only-contracts none
+//@   propagates Save#1
+//@   before[response-after-save] call writeJSON#1 called(Save, 1) && isNilErr(callres(Save, 1, 0))
+
+// Session creation with optional registration: a failed registration never yields a session.
+//@ func handler.makeSessionFromNameAndEmail
+//@   modifies *
+//@   only-contracts HTTPErrorf
+//@   propagates RegisterNewUser#1
+//@   before[session-after-registration] call makeSession#1 called(RegisterNewUser, 1) ==> isNilErr(callres(RegisterNewUser, 1, 1))
